@@ -464,3 +464,53 @@ func LiteralToJSON(v interface{}) (interface{}, bool) {
 	}
 	return nil, false
 }
+
+// Menagerie is a small schema built to put ONE request field node under several concrete types: an interface whose
+// implementers declare its self-typed fields covariantly (valid GraphQL), heterogeneous interface- and union-typed
+// lists, and the implementers also reachable through object-typed fields. The number of implementers and the extra
+// leaf fields vary with r.
+func Menagerie(r *rand.Rand) *model.Schema {
+	s := &model.Schema{Query: "Query"}
+	n := 2 + r.Intn(2)
+	names := []string{"Dog", "Cat", "Eel"}[:n]
+	it := &model.TypeDef{Kind: model.Interface, Name: "Animal", Fields: []*model.FieldDef{
+		{Name: "name", Type: model.Named("String")},
+		{Name: "friend", Type: model.Named("Animal")},
+		{Name: "pals", Type: model.ListOf(model.Named("Animal"))},
+		{Name: "rival", Type: model.Named("Animal")},
+	}}
+	s.Types = append(s.Types, it)
+	un := &model.TypeDef{Kind: model.Union, Name: "Pet"}
+	for i, nm := range names {
+		ot := &model.TypeDef{Kind: model.Object, Name: nm, Interfaces: []string{"Animal"}}
+		ot.Fields = append(ot.Fields,
+			&model.FieldDef{Name: "name", Type: model.Named("String")},
+			&model.FieldDef{Name: "friend", Type: model.Named(nm)},                // covariant: own type
+			&model.FieldDef{Name: "pals", Type: model.ListOf(model.Named("Animal"))}, // stays abstract
+		)
+		if r.Intn(2) == 0 {
+			ot.Fields = append(ot.Fields, &model.FieldDef{Name: "rival", Type: model.Named(names[(i+1)%n])}) // covariant: another implementer
+		} else {
+			ot.Fields = append(ot.Fields, &model.FieldDef{Name: "rival", Type: model.Named("Animal")})
+		}
+		ot.Fields = append(ot.Fields, &model.FieldDef{Name: []string{"barks", "lives", "volts"}[i], Type: model.Named("Int")})
+		if r.Intn(2) == 0 {
+			ot.Fields = append(ot.Fields, &model.FieldDef{Name: "tag", Type: model.Named([]string{"String", "Int", "ID"}[i])}) // same name, other type per implementer
+		}
+		s.Types = append(s.Types, ot)
+		un.Members = append(un.Members, nm)
+	}
+	s.Types = append(s.Types, un)
+	q := &model.TypeDef{Kind: model.Object, Name: "Query", Fields: []*model.FieldDef{
+		{Name: "pets", Type: model.ListOf(model.Named("Animal"))},
+		{Name: "anyPet", Type: model.ListOf(model.Named("Pet"))},
+		{Name: "a1", Type: model.Named("Animal")},
+		{Name: "a2", Type: model.Named("Animal")},
+		{Name: "grid", Type: model.ListOf(model.ListOf(model.Named("Animal")))},
+	}}
+	for _, nm := range names {
+		q.Fields = append(q.Fields, &model.FieldDef{Name: lower(nm), Type: model.Named(nm)})
+	}
+	s.Types = append(s.Types, q)
+	return s
+}
